@@ -1963,6 +1963,9 @@ pub fn auth_to_bytes_0() {
 pub fn auth_to_bytes_1() {
     auth_to_bytes_k::<1, 16>()
 }
+pub fn auth_to_bytes_2() {
+    auth_to_bytes_k::<2, 20>()
+}
 
 // Direction 2 through `to_bytes` needs no harness of its own: a decoded header is built by
 // `IpAuthHeader::new` (the value set of auth_to_bytes_*), for which to_bytes == write, and
@@ -2132,9 +2135,21 @@ pub fn ipv4_exts_none() {
     assert!(d == v && next.0 == start && r.exact());
 }
 
-// NOT decided: `Ipv4Extensions::write` with an authentication header present (it goes through
-// `IpAuthHeader::to_bytes`; the harness did not finish within 20 minutes on the shared machine).
-// `IpAuthHeader::to_bytes` itself is decided against `write` by auth_to_bytes_*.
+/// thorough (`write` goes through `IpAuthHeader::to_bytes`, unwind 1018): `write` emits exactly the
+/// member's own `write` output, header_len is the member's
+pub fn ipv4_exts_auth_enc() {
+    const L: usize = 16;
+    let v = Ipv4Extensions { auth: Some(auth_header_k::<1>()) };
+    assert!(v.header_len() == L);
+    assert!(!v.is_empty());
+    let mut w = Cap::<L>::new();
+    must_ok!(v.write(&mut w, IpNumber(51)));
+    assert!(!w.overflow);
+    assert!(w.len == L);
+    let mut wa = Cap::<L>::new();
+    must_ok!(v.auth.as_ref().unwrap().write(&mut wa));
+    assert!(wa.len == L && wa.buf == w.buf);
+}
 
 /// decoding the member's own bytes gives the value back (ICV 0/4/8 bytes, symbolic)
 pub fn ipv4_exts_auth_dec() {
@@ -2374,7 +2389,10 @@ pub fn ipv6_exts_hbh_frag_slice() {
 pub fn ipv6_exts_all_raw_enc() {
     ipv6_exts_enc::<40>(true, true, true, true, true, false)
 }
-/// authentication header only (decode side; `write` with an authentication header is not decided, see above)
+/// authentication header only
+pub fn ipv6_exts_auth_enc() {
+    ipv6_exts_enc::<16>(false, false, false, false, false, true)
+}
 pub fn ipv6_exts_auth_slice() {
     ipv6_exts_dec_slice::<16>(false, false, false, false, false, true)
 }
@@ -2577,6 +2595,7 @@ crate::harnesses! {
     c08_auth_bytes = auth_bytes; unwind 26,
     c08_auth_to_bytes_0 = auth_to_bytes_0; unwind 1018,
     c08_auth_to_bytes_1 = auth_to_bytes_1; unwind 1018,
+    c08_auth_to_bytes_2 = auth_to_bytes_2; unwind 1018,
     c08_raw_ext_value = raw_ext_value; unwind 26,
     c08_raw_ext_value_read = raw_ext_value_read; unwind 26,
     c08_raw_ext_to_bytes_0 = raw_ext_to_bytes_0; unwind 26,
@@ -2586,6 +2605,7 @@ crate::harnesses! {
     c08_raw_ext_bytes_to_bytes_0 = raw_ext_bytes_to_bytes_0; unwind 28,
     c08_raw_ext_bytes_to_bytes_2 = raw_ext_bytes_to_bytes_2; unwind 28,
     c08_ipv4_exts_none = ipv4_exts_none; unwind 6,
+    c08_ipv4_exts_auth_enc = ipv4_exts_auth_enc; unwind 1018,
     c08_ipv4_exts_auth_dec = ipv4_exts_auth_dec; unwind 26,
     c08_ipv4_exts_bytes_auth = ipv4_exts_bytes_auth; unwind 26,
     c08_ipv6_exts_none = ipv6_exts_none; unwind 9,
@@ -2595,6 +2615,7 @@ crate::harnesses! {
     c08_ipv6_exts_hbh_frag_enc = ipv6_exts_hbh_frag_enc; unwind 9,
     c08_ipv6_exts_hbh_frag_slice = ipv6_exts_hbh_frag_slice; unwind 9,
     c08_ipv6_exts_all_raw_enc = ipv6_exts_all_raw_enc; unwind 9,
+    c08_ipv6_exts_auth_enc = ipv6_exts_auth_enc; unwind 1018,
     c08_ipv6_exts_auth_slice = ipv6_exts_auth_slice; unwind 9,
     c08_ipv6_exts_other_order_enc = ipv6_exts_other_order_enc; unwind 9,
     c08_ip_headers_v4_enc = ip_headers_v4_enc; unwind 30,
